@@ -150,3 +150,23 @@ package dtls
 //@ loop #1: window-from-config: called("replaydetector.New") ==> argAs("replaydetector.New", 0, c.replayProtectionWindow) == c.replayProtectionWindow && argU64("replaydetector.New", 1) == 0x0000FFFFFFFFFFFF
 //@ loop #1: not-checked-yet: !called("ReplayDetector.Check")
 //@ end
+
+// RFC 6347 4.1.2.7 ("invalid records SHOULD be silently discarded, thus preserving the association"): a record
+// layer decode error (ErrInvalidPacketLength: an attacker's off-path datagram is enough to cause it) is never
+// surfaced to Read and never ends the read loop, whatever the handshake state; it is dropped and reading goes on.
+//@ func Conn.classifyReadLoopError
+//@ watch errors.As Establishment.Established
+// (no requires: its caller, the read-loop goroutine, runs after an opaque post-setup callback; nil-safety of c's fields is not claimed here)
+//@ ensures verdict-is-one-of-four: result == readLoopStop || result == readLoopContinue || result == readLoopDeliverAndContinue || result == readLoopCloseAndStop
+//@ ensures decode-error-silently-discarded: !retBool("errors.As", 0) && sameRef(err, recordlayer.ErrInvalidPacketLength) ==> result == readLoopContinue
+//@ end
+
+// The read loop (goroutine of Conn.handshake): what reaches Read as an error is only an error the classifier marked
+// for delivery, and it is the error of the datagram just read; a silently discarded error (decode error, RFC 6347
+// 4.1.2.7) is neither delivered nor ends the loop: the loop only ends on a stop verdict.
+//@ func Conn.handshake$2
+//@ watch Conn.classifyReadLoopError Conn.deliverReadError Conn.readAndBuffer
+//@ loop #1: delivered-only-on-verdict: always("Conn.deliverReadError", "retAs(\"Conn.classifyReadLoopError\", 0, readLoopContinue) == readLoopDeliverAndContinue && sameRef(argErr(\"Conn.deliverReadError\", 2), retErr(\"Conn.readAndBuffer\", 0)) && sameRef(argErr(\"Conn.classifyReadLoopError\", 1), retErr(\"Conn.readAndBuffer\", 0))")
+//@ ensures delivered-only-on-verdict: always("Conn.deliverReadError", "retAs(\"Conn.classifyReadLoopError\", 0, readLoopContinue) == readLoopDeliverAndContinue && sameRef(argErr(\"Conn.deliverReadError\", 2), retErr(\"Conn.readAndBuffer\", 0)) && sameRef(argErr(\"Conn.classifyReadLoopError\", 1), retErr(\"Conn.readAndBuffer\", 0))")
+//@ ensures ends-only-on-stop-verdict: called("Conn.classifyReadLoopError") && (retAs("Conn.classifyReadLoopError", 0, readLoopContinue) == readLoopStop || retAs("Conn.classifyReadLoopError", 0, readLoopContinue) == readLoopCloseAndStop)
+//@ end
